@@ -56,7 +56,7 @@ fn gen_patterns(rng: &mut Rng, snap: &Snapshot) -> Vec<String> {
     let n = if rng.chance(1, 12) { 8 + rng.below(8) } else { 1 + rng.below(4) };
     let mut v = Vec::new();
     for _ in 0..n {
-        let p = match rng.below(23) {
+        let p = match rng.below(25) {
             0 => (*rng.pick(&paths)).clone(),
             1 if !dirs_with_children.is_empty() => (*rng.pick(&dirs_with_children)).clone(),
             2 => rng.pick(&paths).rsplit('/').next().unwrap().to_string(),
@@ -117,6 +117,15 @@ fn gen_patterns(rng: &mut Rng, snap: &Snapshot) -> Vec<String> {
                 if c.is_alphanumeric() { format!("{c}*") } else { "a*".into() }
             }
             22 => format!("/{}*", rng.pick(&paths).chars().skip(1).take(1).filter(|c| c.is_alphanumeric()).collect::<String>()),
+            // '**' glued to a name is two '*'s: within one component, but what it matches is
+            // excluded with everything below it
+            23 | 24 => {
+                let n = rng.pick(&paths).rsplit('/').next().unwrap();
+                let stem: String = n.chars().take(1 + rng.below(2) as usize).collect();
+                if stem.contains(['[', ']', '{', '}', '*', '?', '\\']) { "a**".into() } else {
+                    match rng.below(3) { 0 => format!("{stem}**"), 1 => format!("/{stem}**"), _ => format!("**{stem}") }
+                }
+            }
             _ => format!("/{}", *rng.pick(NAMES15)),
         };
         if !v.contains(&p) {
@@ -220,7 +229,7 @@ pub fn run(tier: Tier, replay: Option<Value>) -> i32 {
     let run = Run::new("C15", "exploration", tier, replay);
     run.par_cases(tier.pick(3000, 300000), super::threads(), |c| one_case(&run, c));
     run.finish(
-        "generated trees (depth <= 4, names with extensions, upper/lower case, digits, non-ASCII) x sets of 1-4 (one case in twelve: 8-15) exclusion patterns instantiated from the tree: anchored file and directory paths, bare names, '*.ext', '?x', 'd/*/f', '**/n', 'd/**', '[ab]*', '[!a-z]*', 'é*', '/d/*', '/*.ext', '/*/name', 'dir?child' and 'dir[!a]child' (which must not match across the separator), '{a,b}' and '/{a,b}', '**/n/**', '/d/**/n', a name in the other case (must not match), 'c*' and '/c*'. Observed: (a) the paths stored by backup(exclude=E) decoded independently, (b) iter_entries(full backup, exclude=E), (c) the paths created by restore(full backup, exclude=E); all three must equal, below the root, the set given by the rule 'omitted iff the path or an ancestor matches a pattern' evaluated with globs the harness builds from the raw patterns (leading '/' anchors at the root, otherwise any depth). Non-trivial = some but not all paths excluded.",
+        "generated trees (depth <= 4, names with extensions, upper/lower case, digits, non-ASCII) x sets of 1-4 (one case in twelve: 8-15) exclusion patterns instantiated from the tree: anchored file and directory paths, bare names, '*.ext', '?x', 'd/*/f', '**/n', 'd/**', '[ab]*', '[!a-z]*', 'é*', '/d/*', '/*.ext', '/*/name', 'dir?child' and 'dir[!a]child' (which must not match across the separator), '{a,b}' and '/{a,b}', '**/n/**', '/d/**/n', a name in the other case (must not match), 'c*' and '/c*', '**' glued to a name ('c**', '/c**', '**c'). Observed: (a) the paths stored by backup(exclude=E) decoded independently, (b) iter_entries(full backup, exclude=E), (c) the paths created by restore(full backup, exclude=E); all three must equal, below the root, the set given by the rule 'omitted iff the path or an ancestor matches a pattern' evaluated with globs the harness builds from the raw patterns (leading '/' anchors at the root, otherwise any depth). Non-trivial = some but not all paths excluded.",
         &["globset's matcher is trusted for what a single glob matches; anchoring, ancestor propagation and the three code paths are what is checked"],
         None,
         &[("observations_compared", 100), ("cases_excluding_some_but_not_all", 30), ("cases_excluding_a_directory_with_children", 10)],
